@@ -284,6 +284,20 @@ theorem unguarded_releases_never_null : ∀ d ∈ dels, unguardedOk d = true := 
   have h : dels.all unguardedOk = true := by decide +kernel
   exact fun d hd => List.all_eq_true.mp h d hd
 
+/-- **a local allocation is handed on, on every path**: in every function of front/ and back/, a local variable that
+receives a fresh allocation (`malloc`, `calloc`, `strdup`, `realloc`, any `*_new*`) is, on every path to the end of the
+function, passed to a function (read-only libc functions aside), stored into a member / element / another variable, or
+returned — never simply dropped (an early `return`, a branch that forgets to register a buffer, a second allocation over
+the first).  The path analysis is the translator's (`gen/owntab.py`, class `Esc`: structured walk, may-analysis, trusted);
+this is the statement over its regenerated result. -/
+theorem local_allocations_handed_on : ∀ r ∈ localAllocs, r.lost = false := by
+  have h : localAllocs.all (fun r => !r.lost) = true := by decide +kernel
+  intro r hr
+  simpa using List.all_eq_true.mp h r hr
+
+/-- non-vacuity: at least 250 local allocations are tracked -/
+example : localAllocs.length ≥ 250 := by decide +kernel
+
 /-- the generated table has the layout the evaluation relies on (`dels[s]` is the row of type `s`, member ids are
 positions, the `dtor` column is the delete function of the pointee type, masks = label lists), the translator recognised
 every shape (`problems` empty), and every member named by the discipline exists -/
